@@ -70,10 +70,7 @@ def init : State := { chunks := [], registry := [], tls := fun _ => none, refcou
 def slotAt (cs : List Chunk) (k i : Nat) : Option Nat :=
   match cs[k]? with
   | none => none
-  | some c =>
-    match c.slots[i]? with
-    | some (some t) => some t
-    | _ => none
+  | some c => c.slots[i]?.join
 
 /-- the chunk loop of `arena_alloc`: skip chunks with `used == capacity`, else first `!alloc` -/
 def scan : List Chunk → Nat → Option (Nat × Nat)
